@@ -205,6 +205,9 @@ Definition bmhas (words : list Z) (i : Z) : bool :=
 (* 5. getBM16Child under both encodings of the children elements        *)
 (* ------------------------------------------------------------------ *)
 
+(* a 16-bit label bitmap of an old inner node *)
+Definition bm16 (b : Z) : Prop := 0 <= b < 65536.
+
 Definition le32 (v : Z) : list Z :=
   [v mod 256; (v / 256) mod 256; (v / 65536) mod 256; (v / 16777216) mod 256].
 
@@ -226,13 +229,14 @@ Fixpoint enc_bm (bms : list Z) : list Z :=
   | a :: b :: c :: d :: r => (a + b * 2 ^ 16 + c * 2 ^ 32 + d * 2 ^ 48) :: enc_bm r
   end.
 
-(* binary.LittleEndian.Uint32(ch.Elts[eltIdx*4:]) & 0xffff, then << 1 *)
+(* binary.LittleEndian.Uint32(ch.Elts[eltIdx*4:]) & 0xffff, then << 1.
+   encoding/binary is modelled by its documented meaning (the little-endian
+   value of four bytes), not by its shifts and ors. *)
+Definition le32_dec (b0 b1 b2 b3 : Z) : Z := b0 + 256 * b1 + 65536 * b2 + 16777216 * b3.
 Definition child_u32 (elts : list Z) (eltIdx : Z) : res Z :=
   if eltIdx <? 0 then Err (EPanic 621) else
   match skipn (Z.to_nat (eltIdx * 4)) elts with
-  | b0 :: b1 :: b2 :: b3 :: _ =>
-      let v := Z.lor b0 (Z.lor (Z.shiftl b1 8) (Z.lor (Z.shiftl b2 16) (Z.shiftl b3 24))) in
-      Ok (Z.shiftl (Z.land v 65535) 1)
+  | b0 :: b1 :: b2 :: b3 :: _ => Ok (Z.shiftl (Z.land (le32_dec b0 b1 b2 b3) 65535) 1)
   | _ => Err (EPanic 621)
   end.
 
